@@ -49,6 +49,9 @@ def ctrl_values(kind, width, limit, known):
     """boundary values for a control word; known = legal discriminators / enumerators"""
     top = (1 << (8 * width)) - 1
     vals = [0, 1, 2, 255, 256, 65535, 65536, 65537, 1 << 31, top, top - 1]
+    # counts whose product with an element size of 2, 4 or 8 wraps around the word (and around 64 bits)
+    bits = 8 * width
+    vals += [1 << (bits - 1), (1 << (bits - 1)) + 1, 1 << (bits - 2), (1 << (bits - 2)) + 1, (1 << (bits - 3)) + 1]
     if limit is not None:
         vals += [limit, limit + 1]
     if known:
